@@ -98,7 +98,7 @@ def _corruption(ctx, S):
         data = rng.randbytes(dlen)
         raw = wire.secs1_block(wire.secs1_header(block=1, ebit=True, **h), data)
         for pos in range(len(raw)):
-            for mask in (sorted({0x01, 0x80, 0xFF} | {rng.randint(1, 255) for _ in range(5)}) if ctx.quick else range(1, 256)):
+            for mask in (sorted({1, 2, 4, 8, 16, 32, 64, 128, 0xFF} | {rng.randint(1, 255) for _ in range(3)}) if ctx.quick else range(1, 256)):
                 idx += 1
                 if not ctx.mine(idx):
                     continue
@@ -120,6 +120,35 @@ def _corruption(ctx, S):
                     ctx.violation(f"corrupted-block-accepted:{region}", {"data_len": dlen, "position": pos, "mask": mask,
                                                                        "original": raw[:16], "corrupted": bytes(bad)[:16]})
     ctx.exhaustive["single_byte_corruption_of_4_block_sizes"] = True
+
+
+def _block_numbers(ctx, S):
+    """Blocks with every boundary block number (and random ones) encode / decode exactly, with and without the end bit."""
+    rng = ctx.rng
+    numbers = sorted({0, 1, 2, 127, 128, 255, 256, 511, 512, 1023, 1024, 2047, 2048, 4095, 4096, 8191, 8192, 16383, 16384, 32766, 32767}
+                     | {rng.randint(0, 32767) for _ in range(40)})
+    for n in numbers:
+        for ebit in (False, True):
+            h = _hdr(rng)
+            data = rng.randbytes(rng.choice([0, 1, 10, 244]))
+            fields = dict(block=n, ebit=ebit, **h)
+            raw = wire.secs1_block(wire.secs1_header(**fields), data)
+            ctx.case(("blockno", n, ebit))
+            ctx.count("oracle.block_codec")
+            ctx.count("enumerated.block_numbers")
+            try:
+                hdr = S.SecsIHeader(h["system"], h["device_id"], h["stream"], h["function"], n, h["rbit"], h["wbit"], ebit)
+                enc = S.SecsIBlock(hdr, data).encode()
+                if enc != raw:
+                    ctx.violation("block-encode-mismatch:block-number", {"block": n, "ebit": ebit, "encoded": enc[:14], "reference": raw[:14]})
+                dec = S.SecsIBlock.decode(raw)
+                if dec is None:
+                    ctx.violation("block-decode-rejects-valid:block-number", {"block": n, "ebit": ebit})
+                elif (dec.header.block, dec.header.last_block, dec.header.system, bytes(dec.data)) != (n, ebit, h["system"], data):
+                    ctx.violation("block-decode-mismatch:block-number", {"block": n, "ebit": ebit, "got": [dec.header.block, dec.header.last_block]})
+            except Exception as exc:
+                ctx.violation(f"block-codec-raises:block-number:{type(exc).__name__}", {"block": n, "error": repr(exc)[:200]})
+    ctx.exhaustive["block_number_boundaries"] = True
 
 
 def _reassembly(ctx, S, nrounds):
@@ -188,7 +217,7 @@ def _reassembly(ctx, S, nrounds):
                 ctx.violation("reassembly-differs", {"header_got": fields, "header_want": hw, "body_len_got": len(g["body"]),
                                                      "body_len_want": len(body), "order": order[:30]})
         if len(seen) != k:
-            if rig.wait(lambda: len(rig.delivered) >= before + k, timeout=0.5) is False:
+            if rig.confirm_absent(lambda: len(rig.delivered) >= before + k):
                 ctx.violation("reassembly-message-lost", {"delivered": len(got), "expected": k, "order": order[:30],
                                                           "messages": [(m[0]["system"], len(m[1])) for m in msgs]})
         if rnd == 0:
@@ -215,6 +244,10 @@ def run(ctx):
         raws = _split_case(ctx, _hdr(rng), rng.randbytes(n), S)
         if i == 0 and raws is not None:
             ctx.sample({"body_len": n, "blocks": len(raws), "first_block": raws[0][:16]})
+    if ctx.shard == 1 % ctx.nshards:
+        _block_numbers(ctx, S)
+        # a body that needs more than 2**11 blocks (block numbers use their upper bits)
+        _split_case(ctx, _hdr(rng), rng.randbytes(2051 * 244 - 7), S)
     if not ctx.quick and ctx.shard == 0:
         n = 32767 * 244
         _split_case(ctx, _hdr(rng), rng.randbytes(n), S)
